@@ -20,7 +20,7 @@ VARIABLES rend
 
 svars == <<stack, hist, done, target, rend>>
 
-SepKinds  == {"SP", "SP3", "TAB", "FF", "LF", "CRLF", "LFLF", "HASH", "CC", "CCML", "MIX"}
+SepKinds  == {"SP", "SP3", "TAB", "FF", "LF", "CRLF", "LFLF", "HASH", "CC", "CCML", "MIX", "CCT", "CCMLT", "HASHT"}
 CaseKinds == {"U", "l", "M"}
 QuoteKinds == {"DQ", "SQ", "BARE"}
 
